@@ -1100,3 +1100,68 @@ func TestC02_typed_setters(t *testing.T) {
 		c.End()
 	})
 }
+
+// ---------------------------------------------------------------------------------------------
+// aspect: wide_integer_conversions — ConvertScalar of the 64-bit integer types converts the stored
+// integer directly (Go's integer conversion: exact or wrapping), not through a float64: values beyond
+// 2^53 and beyond the range of the narrower targets are the cases that tell the two apart
+// (ConvertConstScalar and the type-generic constructors take a float64 by design and are not asserted here)
+
+func TestC02_wide_integer_conversions(t *testing.T) {
+	special := []int64{1<<53 + 1, -(1<<53 + 1), math.MaxInt64, math.MinInt64, math.MaxInt64 - 1, 1<<31 + 5, -(1<<31 + 3), 1<<32 + 5, 1<<15 + 1, 1<<7 + 2, 1<<62 + 3, 255, 256, 65535, 65536, -129}
+	rapid.Check(t, func(t *rapid.T) {
+		var v int64
+		if rapid.Bool().Draw(t, "special") {
+			v = special[rapid.IntRange(0, len(special)-1).Draw(t, "which")]
+		} else {
+			v = rapid.Int64().Draw(t, "v")
+		}
+		srcInt := rapid.Bool().Draw(t, "source is Int")
+		dst := gen.DrawType(t, "dst", gen.MutableTypes)
+		var src Scalar
+		name := "Int64"
+		if srcInt {
+			src, name = NewInt(int(v)), "Int"
+		} else {
+			src = NewInt64(v)
+		}
+		c := obs.Begin("wide_integer_conversions", "%s(%d).ConvertScalar(%s)", name, v, dst)
+		c.Classf("dst=%s", dst)
+		if v > 1<<53 || v < -(1<<53) {
+			c.Class("beyond 2^53")
+		}
+		c.NT(true)
+		var r Scalar
+		if p := call(func() { r = src.ConvertScalar(dst.T) }); p != "" {
+			t.Fatalf("%s panicked: %s", c.Desc(), p)
+		}
+		if r == nil || fmt.Sprint(r.Type()) != fmt.Sprint(dst.T) {
+			t.Fatalf("%s: result %v", c.Desc(), r)
+		}
+		if dst.IsInt() {
+			var want int64
+			switch dst.Bits {
+			case 8:
+				want = int64(int8(v))
+			case 16:
+				want = int64(int16(v))
+			case 32:
+				want = int64(int32(v))
+			default:
+				want = v
+			}
+			if got := r.GetInt64(); got != want {
+				t.Fatalf("%s: the result holds %d, Go's integer conversion gives %d", c.Desc(), got, want)
+			}
+		} else {
+			want := float64(v)
+			if dst.Bits == 32 {
+				want = float64(float32(v))
+			}
+			if got := r.GetFloat64(); got != want {
+				t.Fatalf("%s: the result holds %v, Go's conversion gives %v", c.Desc(), got, want)
+			}
+		}
+		c.End()
+	})
+}
